@@ -34,8 +34,8 @@ import (
 	"github.com/dadrus/heimdall/internal/watcher"
 	"github.com/dadrus/heimdall/internal/x"
 	"github.com/dadrus/heimdall/internal/x/errorchain"
+	"github.com/dadrus/heimdall/internal/x/hashx"
 	"github.com/dadrus/heimdall/internal/x/pkix"
-	"github.com/dadrus/heimdall/internal/x/stringx"
 )
 
 type KeyStore struct {
@@ -152,9 +152,9 @@ func (s *jwtSigner) Hash() []byte {
 	s.mut.RUnlock()
 
 	hash := sha256.New()
-	hash.Write(stringx.ToBytes(jwk.KeyID))
-	hash.Write(stringx.ToBytes(jwk.Algorithm))
-	hash.Write(stringx.ToBytes(s.iss))
+	hashx.WriteString(hash, jwk.KeyID)
+	hashx.WriteString(hash, jwk.Algorithm)
+	hashx.WriteString(hash, s.iss)
 
 	return hash.Sum(nil)
 }
